@@ -283,7 +283,7 @@ def run_fake(ctx, case):
             ctx.count("line_separator_in_tag_name")
         fetch_fails = R.random() < 0.12
         if fetch_fails:
-            fake.set_out("branch", "* main 0123abc [origin/main] msg\n")
+            fake.set_out("branch", "*origin\n")
             fake.set_out("remote", "git@unreachable.example:x/y.git\n")
             fake.fail_match(["git fetch"])
         observe(ctx, case, d, fake.env, p, ast, tdy, cur, tags_all, tags_merged, scope, cli_scope, ignore, "fake", kinds,
